@@ -44,6 +44,7 @@ struct conn {
 	qb_ipcs_connection_t *ptr;
 	int live;		/* pointer may be looked up (not yet destroyed) */
 	int created, closed_seen, app_disc, destroyed, appref;
+	int aborted;		/* disconnected by the app while still ACTIVE (inside created) */
 };
 static struct conn conns[MAXC + 1];
 static int nconn;
@@ -57,7 +58,8 @@ static int svc_destroyed;
 static char svc_name[64];
 static int svc_seq;
 static int quiet;
-static int cur_client = -1;	/* client whose handshake is being served */
+static int cur_client = -1;
+static int accept_ret;	/* what the last accept callback returned */	/* client whose handshake is being served */
 
 /* ---- retry jobs: kept by the harness, run by the `job` / `run` ops ------------------------- */
 struct jrec { qb_loop_job_dispatch_fn fn; void *data; };
@@ -113,6 +115,7 @@ static void do_op(char op, int target, int self)
 		if (!touchable(id)) break;
 		OUT("do d c%d\n", id);
 		k->app_disc = 1;
+		if (k->ptr->state == QB_IPCS_CONNECTION_ACTIVE) k->aborted = 1;
 		qb_ipcs_disconnect(k->ptr);
 		return;
 	case 'r':
@@ -188,6 +191,7 @@ static int32_t cb_accept(qb_ipcs_connection_t *c, uid_t uid, gid_t gid)
 	if (cur_client >= 0) clients[cur_client].cid = id;
 	OUT("cb accept c%d ret=%d\n", id, peek_ret(K_ACCEPT));
 	run_script(K_ACCEPT, id, &ret);
+	accept_ret = ret;
 	return ret;
 }
 
@@ -364,12 +368,23 @@ int main(void)
 			if (svc_destroyed || clients[A].c) { printf("skip\n"); continue; }
 			clients[A].cid = 0;
 			cur_client = A;
+			accept_ret = 0;
 			if (pthread_create(&t, NULL, connect_thread, &j) != 0) { printf("EAGAIN\n"); continue; }
 			if (hl_pump(&j.done) < 0 && !j.done) { printf("TIMEOUT\n"); exit(3); }
 			pthread_join(t, NULL);
 			pump();
 			cur_client = -1;
-			if (j.rc != 0) printf("%s\n", vl_errname(j.rc)); else printf("ok\n");
+			i = clients[A].cid;
+			if (clients[A].c && (i == 0 || conns[i].aborted)) {
+				/* the server dropped the connection inside created: whether the client's
+				 * connect got through is a race; either way this client is not connected */
+				client_gone(A);
+				pump();
+			}
+			if (i == 0) printf("%s\n", j.rc ? vl_errname(j.rc) : "no-accept");	/* never reached the service */
+			else if (accept_ret != 0) printf("%s\n", vl_errname(accept_ret));
+			else if (j.rc != 0 && !conns[i].aborted) printf("%s\n", vl_errname(j.rc));
+			else printf("ok\n");
 		} else if (!strcmp(op, "send") && A >= 0 && A < MAXK) {
 			struct { struct qb_ipc_request_header hdr; char data[16]; } req;
 			if (!clients[A].c) { printf("skip\n"); continue; }
